@@ -1,1 +1,206 @@
-"""placeholder"""
+"""C18 - well-formed lineage history: START first, exactly one terminal event of the right kind, one run id - evaluated on
+the same (site x kind) scenarios of Filter.run as C08 (E5), with lineage emissions as the event alphabet."""
+
+from __future__ import annotations
+
+import ast
+
+from . import rule
+from .c08 import model, trace, scenario_label, FILTER
+from ..model import Unresolved, walk_scope, parent, enclosing_function, qualname
+from ..paths import U, Path, Evaluator
+from .. import q
+
+LIN = 'openfilter/observability/lineage.py'
+
+# (site, kind, via_exit, expected terminal kind or None when only the count is judged)
+SCENARIOS = [
+    (None, None, False, 'COMPLETE'),
+    ('setup', 'Exit', True, 'COMPLETE'),
+    ('loop_once', 'Exit', True, 'COMPLETE'),
+    ('loop_once#2', 'Exit', True, 'COMPLETE'),
+    ('shutdown', 'Exit', True, 'COMPLETE'),
+    ('loop_once', 'PropagateError', True, None),
+    ('setup', 'Exception', False, 'ABORT'),
+    ('loop_once', 'Exception', False, 'ABORT'),
+    ('loop_once#2', 'Exception', False, 'ABORT'),
+    ('shutdown', 'Exception', False, 'ABORT'),
+    ('fini', 'Exception', False, 'ABORT'),
+    ('send_exit_msg', 'Exception', False, 'ABORT'),
+    ('loop_once', 'KeyboardInterrupt', False, 'ABORT'),
+    ('init', 'Exception', False, None),
+]
+
+
+def heartbeat_complete_site(repo):
+    """The call in OpenFilterLineage._heartbeat_loop that emits COMPLETE once the stop flag is seen (None if absent)."""
+    found = repo.try_find(f'{LIN}::OpenFilterLineage._heartbeat_loop')
+    if found is None:
+        return None, None
+    lm, fn = found
+    for st in fn.body:
+        if isinstance(st, ast.While):
+            continue
+        for c in ast.walk(st):
+            if isinstance(c, ast.Call) and U(c.func) in ('self.emit_complete', 'self.emit_stop'):
+                return lm, c
+    return lm, None
+
+
+def lineage_events(p: Path, mod, hb=None):
+    """[(kind, site_key, node)] in program order; the heartbeat thread's COMPLETE is attributed to the first
+    stop_lineage_heart_beat() after the heartbeat was started (the thread emits it when it sees the stop flag)."""
+    out = []
+    started = False
+    hb_running = False
+    hb_done = False
+    for e in p.events:
+        if e.kind != 'call':
+            continue
+        t = e.term
+        if t == 'filter.init' and e.depth == 0:
+            # summarised: init emits START and starts the heartbeat (checked structurally in C18.R3)
+            out.append(('START', 'Filter.init', e.node))
+            hb_running = True
+        elif t.endswith('.emitter.emit_stop'):
+            out.append(('ABORT', site_key(e.node), e.node))
+        elif t.endswith('.emitter.emit_complete'):
+            out.append(('COMPLETE', site_key(e.node), e.node))
+        elif t.endswith('.emitter.stop_lineage_heart_beat'):
+            if hb_running and not hb_done and hb is not None and hb[1] is not None:
+                hb_done = True
+                out.append(('COMPLETE' if U(hb[1].func).endswith('emit_complete') else 'ABORT', 'OpenFilterLineage._heartbeat_loop:after-loop', hb))
+    return out
+
+
+def site_key(node: ast.AST) -> str:
+    fn = enclosing_function(node)
+    txt = U(node)
+    same = sorted([n.lineno for n in ast.walk(fn) if isinstance(n, ast.Call) and U(n) == txt]) if fn is not None else [node.lineno]
+    idx = same.index(node.lineno) if node.lineno in same else 0
+    # describe the syntactic position: handler / finally nesting
+    ctx = []
+    child = node
+    from ..model import ancestors
+    for a in ancestors(node):
+        if a is fn:
+            break
+        if isinstance(a, ast.ExceptHandler):
+            ctx.append(f'except {U(a.type) if a.type else ""}')
+        elif isinstance(a, ast.Try):
+            if any(child is s or any(child is x for x in ast.walk(s)) for s in a.finalbody):
+                ctx.append('finally')
+        child = a
+    return f'{qualname(node)}:{"/".join(reversed(ctx)) or "body"}#{idx}'
+
+
+def init_returned(p: Path, site, kind):
+    calls = [e for e in p.events if e.kind == 'call' and e.term == 'filter.init' and e.depth == 0]
+    if not calls:
+        return False
+    return not (site == 'init' and kind is not None)
+
+
+@rule('C18.R1', 'exactly one terminal lineage event per run in which START was emitted (none otherwise), for every way a run can end')
+def r1(rr, repo):
+    _judge(rr, repo, 'count')
+
+
+@rule('C18.R2', 'the terminal event is COMPLETE iff the run ended cleanly and ABORT iff it ended by an error or interruption')
+def r2(rr, repo):
+    _judge(rr, repo, 'kind')
+
+
+def _judge(rr, repo, what):
+    m = model(repo)
+    mod, run = m.mod, m.run
+    n = 0
+    sites_seen = {}
+    hb = heartbeat_complete_site(repo)
+    for site, kind, via_exit, expect in SCENARIOS:
+        for prop in ('all',):
+            paths = m.scenario(site, kind, prop, True, via_exit=via_exit)
+            label = scenario_label(site, kind, prop, True, via_exit)
+            for p in paths:
+                if p.outcome is not None and p.outcome[0] == 'loopcut':
+                    continue
+                if kind is not None and not via_exit and not any(e.kind == 'raise' and e.raw.startswith(f'<{kind} raised by') for e in p.events):
+                    continue
+                if via_exit and not any(e.kind == 'call' and e.term in ('filter.exit', 'self.exit') for e in p.events):
+                    continue
+                if site is None and (p.outcome is not None and p.outcome[0] == 'raise'):
+                    continue
+                evs = lineage_events(p, mod, hb)
+                start = [e for e in evs if e[0] == 'START']
+                term = [e for e in evs if e[0] in ('ABORT', 'COMPLETE')]
+                n += 1
+                seq = ' '.join(e[0] for e in evs)
+                w = f'{label}: {seq or "(no events)"}'
+                want_n = 1 if (start and init_returned(p, site, kind)) else (None if start else 0)
+                if what == 'count':
+                    if want_n is None:
+                        ok = len(term) <= 1
+                    else:
+                        ok = len(term) == want_n
+                    if ok:
+                        rr.holds('exactly one terminal event', mod, run, witness=w, key=f'count-ok|{label}')
+                    else:
+                        # every emission site that takes part in the malformed history is a separately keyed finding
+                        for k, skey, node in term:
+                            sites_seen.setdefault((k, skey), (node, w))
+                    # nothing before START
+                    if start:
+                        rr.ob('no lineage event precedes START', evs.index(start[0]) == 0, mod, run, witness=w, key='start-first')
+                else:
+                    if expect is None:
+                        continue
+                    for k, skey, node in term:
+                        if k != expect:
+                            sites_seen.setdefault((k, skey), (node, w))
+                    if term and all(k == expect for k, _, _ in term):
+                        rr.holds('terminal event has the right kind', mod, run, witness=w, key=f'kind-ok|{label}')
+    for (k, skey), (node, w) in sorted(sites_seen.items()):
+        nmod = mod
+        if isinstance(node, tuple):
+            nmod, node = node
+        else:
+            nmod = mod
+        if what == 'count':
+            rr.violated(f'terminal-event emission site {skey} emits {k} in a run that emits more than one terminal event (or one without START)', nmod, node, witness=w, key=f'terminal-site|{k}|{skey}')
+        else:
+            rr.violated(f'emission site {skey} emits {k} where the run calls for the other kind', nmod, node, witness=w, key=f'terminal-kind|{k}|{skey}')
+    rr.paths += m.npaths
+    rr.floor('lineage scenarios judged', n, 12, mod, run)
+
+
+@rule('C18.R3', 'START is emitted first (in init, before the heartbeat starts, before anything else can emit) and all events of a run carry the one run id assigned at construction')
+def r3(rr, repo):
+    mod, init = repo.find(f'{FILTER}::Filter.init')
+    calls = [c for c in q.calls_in(init, into_functions=False) if '.emitter.' in U(c.func)]
+    names = [U(c.func).split('.')[-1] for c in sorted(calls, key=lambda c: (c.lineno, c.col_offset))]
+    rr.ob('Filter.init emits START and then starts the heartbeat, nothing else', names == ['emit_start', 'start_lineage_heart_beat'], mod, init, witness=str(names), key='init-order')
+    for c in calls:
+        g = q.guards_of(c, stop=init)
+        rr.ob('the START emission is guarded only by the presence of the emitter', all('emitter' in U(t) for t, pol in g) and len(g) <= 1, mod, c, witness=' && '.join(U(t) for t, _ in g), key=f'init-guard|{U(c.func).split(".")[-1]}')
+    # first statement that can raise before emit_start? START should precede setup of communication
+    lm = repo.module(LIN)
+    stores = []
+    for n in ast.walk(lm.tree):
+        if isinstance(n, (ast.Assign, ast.AugAssign, ast.AnnAssign)):
+            for t in (n.targets if isinstance(n, ast.Assign) else [n.target]):
+                if isinstance(t, ast.Attribute) and t.attr == 'run_id':
+                    stores.append(n)
+    for mod2 in repo.modules.values():
+        if mod2 is lm:
+            continue
+        for n in ast.walk(mod2.tree):
+            if isinstance(n, (ast.Assign, ast.AugAssign)) and any(isinstance(t, ast.Attribute) and t.attr == 'run_id' and 'emitter' in U(t) for t in (n.targets if isinstance(n, ast.Assign) else [n.target])):
+                rr.violated('the run id of the emitter is reassigned outside its constructor', mod2, n, key=f'runid-store|{mod2.relpath}')
+    _, ctor = repo.find(f'{LIN}::OpenFilterLineage.__init__')
+    rr.ob('run_id is assigned exactly once, in the constructor of the emitter', len(stores) == 1 and enclosing_function(stores[0]) is ctor, lm, stores[0] if stores else ctor, witness=f'{len(stores)} stores', key='runid-once')
+    _, emit = repo.find(f'{LIN}::OpenFilterLineage._emit_event')
+    runs = [c for c in q.name_calls(emit, 'Run')]
+    ok = bool(runs) and all(q.kwarg(c, 'runId') is not None and U(q.kwarg(c, 'runId')) == 'self.run_id' for c in runs)
+    rr.ob('every event is built with runId=self.run_id', ok, lm, emit, key='runid-used')
+    rr.ob('an externally supplied Run object cannot replace the run id', not any('run or' in U(n) for n in ast.walk(emit) if isinstance(n, ast.BoolOp)) or
+          not any(q.kwarg(c, 'run') is not None for mod3, c in q.all_package_calls(repo) if isinstance(c.func, ast.Attribute) and c.func.attr == '_emit_event'), lm, emit, key='runid-override')
